@@ -67,7 +67,8 @@ def version_and_trim(F, S):
         r = returns(f)
         if len(r) == 1:
             t = f.term(r[0]["value"])
-            good = good or (t[0] == "call" and t[1].endswith("TilesetSource::IsEmpty"))
+            arg = ("var", f.params[0]["n"], f.params[0]["d"]) if f.params else None
+            good = good or (arg is not None and t == F.method_value("OP2Utility::TilesetSource::IsEmpty", arg))
     inst = M + "::TrimTilesetSources#predicate"
     if good:
         out.append(ok("R-SIB", inst, fn.loc(fn.body), fn.qn, "the entries removed are exactly those for which IsEmpty() holds", "remove_if(IsEmpty)"))
@@ -116,12 +117,18 @@ def header_fields(F, S):
         got[m] = None
     def hdr(f):
         return lambda t: t is not None and t[0] == "mem" and t[2] == f
+    hdr_local = None
+    for nd in rb.nodes:
+        if nd["k"] == "DeclStmt":
+            for d in nd.get("decls", []):
+                if d.get("rec") == "OP2Utility::MapHeader":
+                    hdr_local = ("var", d["n"], d["d"])
     probs = []
     if not hdr("versionTag")(got.get("versionTag")): probs.append("versionTag")
     if not hdr("bSavedGame")(got.get("isSavedGame")): probs.append("isSavedGame")
     if not hdr("heightInTiles")(got.get("heightInTiles")): probs.append("heightInTiles")
     w = got.get("widthInTiles")
-    if not (w and w[0] == "call" and w[1].endswith("MapHeader::WidthInTiles")): probs.append("widthInTiles")
+    if not (w and hdr_local is not None and w == F.method_value("OP2Utility::MapHeader::WidthInTiles", hdr_local)): probs.append("widthInTiles")
     inst = M + "::ReadMapBeginning#fields"
     req = "the map's scalar members are taken from the header fields of the same name"
     if not probs:
